@@ -826,6 +826,48 @@ pub fn run_lzb(c: &Case) -> Obs {
     Obs::ok(obs, true)
 }
 
+// kind eloop (NV.Vcf.EagerLoop.eager_call_list): arbitrary bytes read with read_record_buf into ONE
+// reused RecordBuf until Ok(0), going on after every Err (the reader has consumed the line); one
+// result per call.  Oracle: the record_bufs() iterator yields the same sequence.
+pub fn run_eloop(c: &Case) -> Obs {
+    let header = match header_of(c) {
+        Ok(h) => h,
+        Err(e) => return Obs::fail("-", "eloop-header-unparsable", format!("{e}")),
+    };
+    let text = unhex(&c.args[4]);
+    let cap = text.len() + 2;
+    let reused: R<Vec<Option<Canon>>> = g(|| {
+        let mut r = vcf::io::Reader::new(&text[..]);
+        let mut rb = RecordBuf::default();
+        let mut out = vec![];
+        for _ in 0..cap {
+            match r.read_record_buf(&header, &mut rb) {
+                Ok(0) => break,
+                Ok(_) => out.push(Some(canon(&rb))),
+                Err(_) => out.push(None),
+            }
+        }
+        Ok(out)
+    });
+    let iter: R<Vec<Option<Canon>>> = g(|| {
+        let mut r = vcf::io::Reader::new(&text[..]);
+        Ok(r.record_bufs(&header).take(cap).map(|x| x.ok().map(|rb| canon(&rb))).collect())
+    });
+    let (R::Ok(reused), R::Ok(iter)) = (reused, iter) else {
+        return Obs::fail("Panic", "eloop-reader-panic", &c.args[4]);
+    };
+    let show = |o: &Option<Canon>| o.as_ref().map(rec_str).unwrap_or("Err".into());
+    let obs = reused.iter().map(show).collect::<Vec<_>>().join("^");
+    if reused.len() >= cap {
+        return Obs::fail(obs, "eloop-reader-does-not-reach-eof", &c.args[4]);
+    }
+    let it = iter.iter().map(show).collect::<Vec<_>>().join("^");
+    let verdict = if it == obs { Ok(()) } else {
+        Err(("record-bufs-iterator-differs-from-read-record-buf-loop".to_string(), format!("{} :: loop {obs} iterator {it}", &c.args[4])))
+    };
+    Obs::ok(format!("{}:{obs}", reused.len()), !reused.is_empty()).with_verdict(verdict)
+}
+
 pub fn qual_ftab_all(text: &[u8]) -> String {
     let mut v: Vec<String> = vec![];
     for raw in text.split(|&b| b == b'\n') {
@@ -881,11 +923,20 @@ const LZB_FIXED: &[&[u8]] = &[
 ];
 
 pub fn gen_lzb(rng: &mut Rng, w: &mut CaseWriter, n_mut: usize) {
+    gen_bytes_kind(rng, w, n_mut, "lzb")
+}
+
+// kind eloop: the same byte texts through read_record_buf into ONE RecordBuf, every call kept
+pub fn gen_eloop(rng: &mut Rng, w: &mut CaseWriter, n_mut: usize) {
+    gen_bytes_kind(rng, w, n_mut, "eloop")
+}
+
+fn gen_bytes_kind(rng: &mut Rng, w: &mut CaseWriter, n_mut: usize, kind: &str) {
     let infos = "I0/1/I,END/1/I,SVLEN/./I";
     let fmts = "GT/1/S,F0/1/I,LEN/1/I";
     let mut push = |w: &mut CaseWriter, ver: &str, ns: usize, t: &[u8]| {
         let sv = if matches!(ver, "4.4" | "4.5") { infos.replace("SVLEN/.", "SVLEN/A") } else { infos.to_string() };
-        w.push("lzb", vec![ver.into(), sv, fmts.into(), ns.to_string(), hex(t), qual_ftab_all(t)]);
+        w.push(kind, vec![ver.into(), sv, fmts.into(), ns.to_string(), hex(t), qual_ftab_all(t)]);
     };
     for t in LZB_FIXED {
         push(w, "4.3", 2, t);
